@@ -51,11 +51,17 @@ def _chunk(args):
             try:
                 plan, ctx = one_run(world, verif_seed, tier, index, props=props)
             except HarnessError as e:
-                out["harness"] = "run %d: %s" % (index, e)
-                break
+                out["harness"] = out["harness"] or "run %d: %s" % (index, e)
+                out["harness_count"] = out.get("harness_count", 0) + 1
+                if out["harness_count"] > 20:
+                    break
+                continue
             except Exception:
-                out["harness"] = "run %d: %s" % (index, traceback.format_exc())
-                break
+                out["harness"] = out["harness"] or "run %d: %s" % (index, traceback.format_exc())
+                out["harness_count"] = out.get("harness_count", 0) + 1
+                if out["harness_count"] > 20:
+                    break
+                continue
             out["runs"] += 1
             out["steps"] += ctx.steps_run
             out["obs"] += ctx.nobs
@@ -113,6 +119,7 @@ def merge(total, part):
             s.append(p)
     if part["harness"] and not total.get("harness"):
         total["harness"] = part["harness"]
+    total["harness_count"] = total.get("harness_count", 0) + part.get("harness_count", 0)
 
 
 def search(world_name, verif_seed, tier, budget_s, workers, chunk, props=None,
@@ -128,7 +135,7 @@ def search(world_name, verif_seed, tier, budget_s, workers, chunk, props=None,
             part = _chunk((world_name, verif_seed, tier, next_index, chunk, props, max_keep))
             next_index += chunk
             merge(total, part)
-            if part["harness"]:
+            if total.get("harness_count", 0) > 100:
                 break
         total["last_index"] = next_index - 1
         total["wall_s"] = time.time() - t0
@@ -163,17 +170,18 @@ def search(world_name, verif_seed, tier, budget_s, workers, chunk, props=None,
                     pending.clear()
                     break
                 merge(total, part)
-                if total.get("harness"):
+                if total.get("harness_count", 0) > 100 or str(total.get("harness", "")).startswith("worker"):
                     pending.clear()
                     break
                 if time.time() - t0 < budget_s:
                     submit()
-            if total.get("harness"):
+            if total.get("harness_count", 0) > 100 or str(total.get("harness", "")).startswith("worker"):
                 break
     finally:
         procs = list((getattr(ex, "_processes", None) or {}).values())
-        ex.shutdown(wait=not total.get("harness"), cancel_futures=True)
-        if total.get("harness"):
+        dead = str(total.get("harness", "")).startswith("worker")
+        ex.shutdown(wait=not dead, cancel_futures=True)
+        if dead:
             for p in procs:
                 try:
                     p.terminate()
